@@ -48,7 +48,9 @@ def file_bytes(recs, fnl):
     for r in recs:
         eol = b"\r\n" if r["eol"] == 2 else b"\n"
         extra = r["hlen"] - 1 - len(r["name"])
-        hdr = b">" + r["name"].encode() + (r.get("hsep", " ").encode() + b"d" * (extra - 1) if extra > 0 else b"")
+        # description bytes: plain ASCII, or ISO-8859-1 text (not valid UTF-8) - a description is free text and no business of the indexer
+        dch = {"latin1": b"\xfc", "degree": b"\xb0"}.get(r.get("hdesc", ""), b"d")
+        hdr = b">" + r["name"].encode() + (r.get("hsep", " ").encode() + dch * (extra - 1) if extra > 0 else b"")
         assert len(hdr) == r["hlen"]
         out += hdr + eol
         res = "".join(r["res"]).encode()
@@ -85,8 +87,17 @@ def choose_asms(recs, rng, Bs, opts):
     pool = []
     for r in recs:
         n = len(r["res"])
-        for s in range(1, n + 1):
-            for e in range(s, n + 1):
+        if n > 200:
+            # long records: a seeded sample of intervals instead of all of them
+            ivs = set()
+            while len(ivs) < 300:
+                s0 = rng.randint(1, n)
+                ivs.add((s0, min(n, s0 + rng.choice([0, 1, r["w"], 3 * r["w"] + 1, n // 3, n]))))
+            ivs = sorted(ivs)
+        else:
+            ivs = [(s, e) for s in range(1, n + 1) for e in range(s, n + 1)]
+        for s, e in ivs:
+            if True:
                 for st in ((1, -1, 0) if opts.get("strand0_rows") else (1, -1)):
                     pool.append({"k": "F", "name": r["name"], "s": s, "e": e, "st": st})
     if opts.get("singles"):
@@ -187,6 +198,15 @@ def run_file(sc):
             asms.append(d)
             plan.append((len(asms), [(B, L) for B in Bs for L in (Ls[0], Ls[-1])]))
         t["derived"] = len(asms)
+    if opts.get("whole"):
+        # the whole of every record as one forward and one reverse fragment
+        for r in recs:
+            asms.append([{"k": "F", "name": r["name"], "s": 1, "e": len(r["res"]), "st": 1}])
+            plan.append((len(asms), [(B, Ls[0]) for B in Bs]))
+            rev = Scaffold("x", [mkrow(x) for x in asms[-1]]).reverse()
+            asms.append([prow(x) for x in rev.rows])
+            plan.append((len(asms), [(B, Ls[0]) for B in Bs]))
+            t["revpairs"].append([len(asms) - 1, len(asms)])
     for n, a in enumerate(singles):
         asms.append(a)
         plan.append((len(asms), [combos[(sc["tid"] + n) % len(combos)]]))
@@ -205,14 +225,17 @@ def run_file(sc):
                 pass
     t["asms"] = asms
     fis = {}
+    # a second pass over the assemblies that hold gaps, on the SAME FastaIndex objects, with another gap character
+    plan2 = [(ia, [(B, L, "n") for (B, L) in bl]) for ia, bl in plan if any(r["k"] == "G" and r["e"] >= r["s"] for r in asms[ia - 1])][:6]
+    plan = [(ia, [(B, L, "N") for (B, L) in bl]) for ia, bl in plan] + plan2
     for ia, bl in plan:
         rows = [mkrow(r) for r in asms[ia - 1]]
-        for B, L in bl:
+        for B, L, gc in bl:
             fi = fis.get(B)
             if fi is None:
                 fi = fis[B] = FastaIndex(path, B)
                 fi.index = idx
-            S = {"a": ia, "B": B, "L": L, "exc": "", "hdr": 0, "lines": [], "maxchunk": 0, "maxread": 0}
+            S = {"a": ia, "B": B, "L": L, "exc": "", "hdr": 0, "lines": [], "maxchunk": 0, "maxread": 0, "gc": gc}
             mx = [0]
 
             def seq_iter(frag, fi=fi, mx=mx):
@@ -228,13 +251,15 @@ def run_file(sc):
             fi.get_gap_iter = gap_iter
             buf = io.BytesIO()
             Track.maxsize = 0
-            out = C.guarded(lambda _: FastaStream(buf, fi, line_length=L).write_scaffold(Scaffold("scf", rows)), None, 10.0)
+            # (every fourth assembly is streamed under a 68-character scaffold name: the record name is the scaffold's, whatever its length)
+            scname = "scf" if (sc["tid"] + ia) % 4 else "scf_" + "long_assembler_style_name_" * 2 + "0123456789ab"
+            out = C.guarded(lambda _: FastaStream(buf, fi, line_length=L, gap_character=gc.encode()).write_scaffold(Scaffold(scname, rows)), None, 60.0)
             if out[0] != "ok":
                 S["exc"] = out[1] if out[0] == "exc" else "HANG"
             else:
                 data = buf.getvalue()
                 parts = data.split(b"\n")
-                S["hdr"] = 1 if parts[0] == b">scf" and data.endswith(b"\n") else 0
+                S["hdr"] = 1 if parts[0] == b">" + scname.encode() and data.endswith(b"\n") else 0
                 S["lines"] = [chars(x) for x in parts[1:-1]]
                 S["maxchunk"] = mx[0]
                 S["maxread"] = Track.maxsize if any(r["k"] == "F" for r in asms[ia - 1]) else 0
@@ -278,6 +303,11 @@ def run_rev(sc):
             r3.rows.append(extra)
         t["rev_of_inplace"] = [pr(r) for r in r3.reverse().rows]
         t["inplace"] = [pr(r) for r in r3.rows]
+        s3 = Scaffold("s", [mkrow(r) for r in sc["rows"]])
+        s3.reverse()
+        s3.append_scaffold(Scaffold("y", [extra]))                 # the reversed scaffold itself grows without add_row
+        t["rev_after_own_append"] = [pr(r) for r in s3.reverse().rows]
+        t["own_appended"] = [pr(r) for r in s3.rows]
         r4 = s2.reverse()
         r4.append_scaffold(Scaffold("y", [extra]))
         t["rev_of_appended"] = [pr(r) for r in r4.reverse().rows]
@@ -311,7 +341,19 @@ def mem_traces(tid0, root):
     from tola.fasta.index import FastaIndex, index_fasta_file
     from tola.fasta.stream import FastaStream
     install_tracking()
-    B, w = 2000, 60
+    out = []
+    for k, w in enumerate((60, 400 * 2000)):        # wrapped at 60, and the whole sequence on one line (a read must not pull in the rest of its line)
+        out += _mem_layout(tid0 + 10 * k, root, w)
+    return out
+
+
+def _mem_layout(tid0, root, w):
+    from tola.assembly.fragment import Fragment
+    from tola.assembly.gap import Gap
+    from tola.assembly.scaffold import Scaffold
+    from tola.fasta.index import FastaIndex, index_fasta_file
+    from tola.fasta.stream import FastaStream
+    B = 2000
     total = 400 * B
     rng = random.Random(5)
     path = Path(root) / "big.fa"
@@ -459,6 +501,17 @@ def long_files(rng, tier, opts):
             o["multis"] = min(o.get("multis", 0), 2)
             out.append({"recs": recs, "fnl": rng.choice([0, 1]), "Bs": [1, 7, 64, BIG] if width < 60 else [64, 1000, BIG], "Ls": [60, 7], "opts": o,
                         "seed": C.seed(), "cls": "long-record"})
+    # one record longer than 64 KiB of whole lines, CRLF line ends, streamed forward and reversed with the default-sized and a small buffer
+    res = []
+    while len(res) < 70000:
+        res += [rng.choice("ACGT") for _ in range(rng.choice([3000, 9000, 20000]))] + ["N"] * rng.choice([0, 60, 500])
+    res = res[:70000]
+    o = dict(opts)
+    if o.get("reads"):
+        o["reads"] = "sample"
+    o.update(singles=False, multis=0, whole=True)
+    out.append({"recs": [{"name": "s1", "hlen": 3, "res": res, "w": 60, "eol": 2}], "fnl": 1, "Bs": [1000, BIG], "Ls": [60], "opts": o, "seed": C.seed(),
+                "cls": "huge-record"})
     return out
 
 
@@ -482,7 +535,8 @@ def engine(run, tier, pid, opts, mc_which, sample=None, extra_kinds=()):
     # the same files with a description after every name, separated by a TAB or by a space (the name ends at the first white space)
     for f in rng.sample(files, min(len(files), 300 if tier == "quick" else 3000)):
         sep = rng.choice(["\t", " ", "\t"])
-        recs = [dict(r, hlen=r["hlen"] + 6, hsep=sep) if r["hlen"] == 2 + len(r["name"]) else dict(r, hsep=sep) for r in f["recs"]]
+        hd = rng.choice(["", "", "latin1", "degree"])
+        recs = [dict(r, hlen=r["hlen"] + 6, hsep=sep, hdesc=hd) if r["hlen"] == 2 + len(r["name"]) else dict(r, hsep=sep, hdesc=hd) for r in f["recs"]]
         scen.append({"recs": recs, "fnl": f["fnl"], "Bs": BS[tier], "Ls": LS, "opts": opts, "seed": C.seed(), "cls": "described-headers"})
     scen += long_files(rng, tier, opts)
     for i, s in enumerate(scen, 1):
